@@ -66,10 +66,6 @@ func validateHAMTData(nd data.UnixFSData) error {
 		return ErrInvalidHashType
 	}
 
-	if !nd.FieldData().Exists() {
-		return ErrNoDataField
-	}
-
 	if !nd.FieldFanout().Exists() {
 		return ErrNoFanoutField
 	}
@@ -99,7 +95,10 @@ func bitField(nd data.UnixFSData) (bitfield.Bitfield, error) {
 	if err != nil {
 		return nil, err
 	}
-	bf.SetBytes(nd.FieldData().Must().Bytes())
+	// an empty shard written by the reference implementation has no bitfield
+	if nd.FieldData().Exists() {
+		bf.SetBytes(nd.FieldData().Must().Bytes())
+	}
 	return bf, nil
 }
 
